@@ -670,6 +670,13 @@ def check_ocp(ctx):
             continue
         if "exc" in o:
             ctx.violation("C20:ocp:%s:unexpected-exception" % k, "unexpected exception %s" % o["exc"], rep); continue
+        # absolute clause (independent of the reference object): a terminal function the problem does not define is the stage function at step N
+        for f, rr in (o.get("methods") or {}).items():
+            if isinstance(rr, dict) and "stage_at_N" in rr and "exc" not in rr:
+                ctx.count("ocp/terminal-default-vs-stage-at-N")
+            if isinstance(rr, dict) and "stage_at_N" in rr and "exc" not in rr and rr.get("o") != rr["stage_at_N"]:
+                rep["why"] = "%s is not defined by the problem, so it must equal the stage function evaluated at time step N=%d: got %r, stage function gives %r" % (f, c["dims"][0], rr.get("o"), rr["stage_at_N"])
+                ctx.violation("C20:ocp:terminal-default-is-not-the-stage-function-at-N:%s" % f, "ocp %s: %s" % (k, rep["why"]), dict(rep))
         if k in ("native", "native0"):
             ref[k] = o
             if "methods" in o:
